@@ -15,6 +15,7 @@ import (
 	"io"
 	"os"
 	"strings"
+	"sync/atomic"
 	"testing"
 	"testing/synctest"
 	"time"
@@ -420,6 +421,7 @@ func init() {
 			stuck := 0
 			for i := 0; i < c.n; i++ {
 				plan := genConnPlan(g.fork())
+				atomic.AddInt64(&verifProgress, 1)
 				hist, steps := runConn(g.fork(), plan)
 				total += steps
 				for _, h := range hist {
